@@ -227,7 +227,15 @@ class _LPBase:
         objective = pulp.value(problem.objective)
 
         variables, values = [], []
+        # PuLP sorts ``problem.variables()`` by name ("x10" < "x2"); report
+        # them in the order in which they first appear in the model instead.
+        in_order = {}
+        for expr in (problem.objective, *problem.constraints.values()):
+            for v in expr or ():
+                in_order.setdefault(v.name, v)
         for v in problem.variables():
+            in_order.setdefault(v.name, v)
+        for v in in_order.values():
             variables.append(v.name)
             values.append(v.varValue)
 
